@@ -108,6 +108,11 @@ def programs():
     add("dotted-dispatch-absent-section-present", prog({"k": "tuple", "items": [DS(1), DS(2)]},
                                                        d1={"args": [["a", O("A", dk="const", dv=0)]], "dispatch": "S.X", "overloads": [["x", {"args": [["b", O("B", dk="const", dv=1)]]}]]},
                                                        d2={"args": [["inner", DS(1)], ["c", O("C", dk="const", dv=0)]], "dispatch": O("T.X", dk="const", dv="none"), "overloads": [["y", {"expr": O("A", dk="const", dv="ya")}]]}))
+    # a NESTED coalesce whose members are all rejected although their keys are present (values outside their domains,
+    # each option with a default inside its domain): every one of those keys decides that the outer fall-back is taken
+    add("nested-coalesce-all-members-rejected", prog(
+        {"k": "cached", "spec": {"k": "coalesce", "members": [{"k": "coalesce", "members": [O("D", dk="const", dv="x", dom=["container", ["x", "y"]]), O("E", dk="const", dv="x", dom=["container", ["x"]])]},
+                                                              O("B", dk="const", dv="fb")]}}))
     # a key that is present with a null value is PRESENT: the default (and what the default reads) plays no part
     add("null-valued-option", prog({"k": "tuple", "items": [DS(1), {"k": "cached", "spec": O("C", dk="tmpl", dv="{S.X} t")}]},
                                    d1={"args": [["a", O("A", dk="spec", dv=O("B"))], ["c", O("E", dk="spec", dv=DS(2))]]},
